@@ -35,15 +35,7 @@ var tunnelPaths = []string{"local-eof", "tunnel-eof", "peer-notify", "mgr-close"
 func genTunnel(t *rapid.T) Round {
 	r := Round{Comp: "client-tunnel", P: map[string]int{}}
 	r.Closers = rapid.SampledFrom([]int{2, 2, 2, 3, 3, 4, 5, 6, 8}).Draw(t, "closers")
-	// which completion paths race the closers (0..3 of them)
-	mask := rapid.IntRange(0, 1<<len(tunnelPaths)-1).Draw(t, "paths")
-	cnt := 0
-	for i, p := range tunnelPaths {
-		if mask&(1<<i) != 0 && cnt < 3 {
-			r.Paths = append(r.Paths, p)
-			cnt++
-		}
-	}
+	r.Paths = drawPaths(t, tunnelPaths, 3)
 	r.P["variant"] = rapid.IntRange(0, 1).Draw(t, "role")      // 0 listen (notifies peer), 1 target
 	r.P["bytes"] = rapid.SampledFrom([]int{0, 1, 700, 40000}).Draw(t, "bytes")
 	r.P["reasons"] = rapid.IntRange(0, 3).Draw(t, "reasons")   // 0: all closers use distinct reasons, 1: all Normal, 2: all PeerClosed, 3: via manager.CloseTunnel
